@@ -8,7 +8,10 @@ Stages (DESIGN.md 5 "C11", 4.4):
   T4   the process level, which no model covers: the REAL binaries, built here from the tree under test
        (go build ./cmd/server ./cmd/lock), are run as child processes by harness/e2e/c11 through a matrix
            signal {SIGINT, SIGTERM} x state file {on, off} x REST {on, off} x no_clear_on_disconnect {off, on}
-           x client situation {none, idle, holds, blocked, blocked_wt, rest_hold, mixed, inflight}
+           x client situation {none, idle, holds, blocked, blocked_wt, rest_hold, mixed, inflight,
+                               rest_stalled_body, rest_stalled_headers, rest_idle_keepalive (REST cells), grpc_stalled}
+       (stalled = a raw TCP connection that is open at the signal with a request the server cannot finish serving: headers +
+       part of the body, part of the headers, an idle keep-alive connection, an unfinished HTTP/2 handshake)
        (+ "inflight" on a server that restored a large state file). Observed per scenario: exit status, time from signal to
        exit, stdout/stderr, the outcome of every call blocked or in flight at the signal, the state file after exit
        decoded with the tree's own store, the next start on the same file and ports (admin listing through the IPC
@@ -20,7 +23,8 @@ The oracle below is the property itself, evaluated on what the real process did:
   nopanic              no "panic" / "fatal error" / goroutine dump on stdout/stderr
   blocked_error        a Lock blocked on a hold that is never released comes back with an error (or a transport error),
                        never locked=true
-  no_hang              every call blocked / in flight at the signal returns within the bound
+  no_hang              every call blocked / in flight at the signal returns within the bound; every stalled connection is
+                       closed within it; a stalled request is never answered with a hold (blocked_error)
   file_keeps           every hold acknowledged and live at the signal (no Unlock sent) is in the state file after exit,
                        under either disconnect policy
   file_drops_unlocked  no hold whose Unlock was acknowledged is in it
@@ -49,7 +53,12 @@ from lib import vcheck
 LIMIT_MS = 5000
 CLAUSES = ["exit0", "prompt", "nopanic", "blocked_error", "no_hang", "file_keeps", "file_drops_unlocked",
            "restart_up", "restart_lists", "restart_refuses", "restart_unlock"]
-SITUATIONS = ["none", "idle", "holds", "blocked", "blocked_wt", "rest_hold", "mixed", "inflight"]
+SITUATIONS = ["none", "idle", "holds", "blocked", "blocked_wt", "rest_hold", "mixed", "inflight",
+              "rest_stalled_body", "rest_stalled_headers", "rest_idle_keepalive", "grpc_stalled"]
+REST_ONLY = ("rest_hold", "rest_stalled_body", "rest_stalled_headers", "rest_idle_keepalive")
+STALLED = ("rest_stalled_body", "rest_stalled_headers", "rest_idle_keepalive", "grpc_stalled")
+GRPC_VARIANTS = ["nothing", "preface", "half-preface"]
+F_HANDSHAKE = "F-GRPC-HANDSHAKE"
 DELAYS = [0, 200, 1000, 5000, 20000, 50000]
 PRELOAD_KEY = "00000000-0000-4000-8000-"
 
@@ -62,7 +71,7 @@ def make_scenario(rng, sid, sig, sf, rest, noclear, sit, delay, preload=0):
     sc = {
         "id": sid, "signal": sig, "state_file": sf, "rest": rest, "no_clear": noclear,
         "ipc": rng.random() < 0.8, "client": sit,
-        "nlocks": n_live + unlock_before if sit not in ("none", "idle", "inflight") else 0,
+        "nlocks": (min(n_live, 2) if sit in STALLED else n_live + unlock_before) if sit not in ("none", "idle", "inflight") else 0,
         "lock_timeouts": [rng.choice([0, 0, 30, 60, 120]) for _ in range(n_live + unlock_before)],
         "unlock_before": unlock_before,
         "waiters": rng.randint(1, 2) if sit in ("blocked", "blocked_wt", "mixed") else 0,
@@ -70,6 +79,8 @@ def make_scenario(rng, sid, sig, sf, rest, noclear, sit, delay, preload=0):
         "workers": rng.choice([8, 16, 32]) if sit == "inflight" else 0,
         "preload": preload, "delay_us": delay, "limit_ms": LIMIT_MS,
     }
+    if sit == "grpc_stalled":
+        sc["variant"] = rng.choice(GRPC_VARIANTS)
     if sit in ("blocked", "blocked_wt", "mixed") and rng.random() < 0.5:
         sc["lock_timeouts"][0] = rng.choice([30, 60])  # the hold the waiters queue on has a lease
     return sc
@@ -88,8 +99,10 @@ def matrix(seed, tier):
                 for rest in (True, False):
                     for noclear in (False, True):
                         for sit in SITUATIONS:
-                            if sit == "rest_hold" and not rest:
+                            if sit in REST_ONLY and not rest:
                                 continue
+                            if sit == "grpc_stalled" and (noclear or (tier == "quick" and not sf)):
+                                continue    # the disconnect policy has no part in it; quick: the cells with a state file
                             delay = DELAYS[(rot + k + 2 * rep) % len(DELAYS)]
                             if sit == "inflight":
                                 delay = rng.choice([0, 3000, 20000, 40000])
@@ -273,9 +286,16 @@ def judge(o):
             fail("no_hang", "requests in flight at the signal were still pending long after it")
         elif inf.get("last_return_ms_after_signal", 0) >= limit:
             fail("no_hang", "a request in flight at the signal returned only %.0f ms later" % inf["last_return_ms_after_signal"])
-    if o.get("blocked"):
+    for st in o.get("stalled") or []:
+        if st.get("answered_with_hold"):
+            fail("blocked_error", "the stalled %s request was answered with a hold: %s" % (st["kind"], (st.get("received_after_stall") or "")[:200]))
+        if not st.get("closed_by_server"):
+            fail("no_hang", "the stalled %s connection was still open long after the signal" % st["kind"])
+        elif st.get("closed_ms_after_signal", 0) >= limit:
+            fail("no_hang", "the stalled %s connection was closed only %.0f ms after the signal" % (st["kind"], st["closed_ms_after_signal"]))
+    if o.get("blocked") or o.get("stalled"):
         v.setdefault("blocked_error", "pass")
-    if o.get("blocked") or inf:
+    if o.get("blocked") or inf or o.get("stalled"):
         v.setdefault("no_hang", "pass")
 
     # the bulk of an earlier run's holds (scenario.preload) is summarised by the driver's counts, not listed
@@ -360,7 +380,7 @@ def short(o, v=None):
     s = {
         "scenario": o["scenario"],
         "first_run": {k: r1.get(k) for k in ("exit_code", "killed_by", "exit_ms", "hung", "bad_output", "ipc_socket_left") if r1.get(k) not in (None, "", [])},
-        "blocked_calls": o.get("blocked"), "inflight": o.get("inflight"),
+        "blocked_calls": o.get("blocked"), "stalled_connections": o.get("stalled"), "inflight": o.get("inflight"),
         "holds_live_at_signal": (o.get("must_keys") or [])[:6], "n_live": len(o.get("must_keys") or []) + (o.get("preloaded") or 0),
         "unlocked_before_signal": (o.get("must_not_keys") or [])[:4],
         "state_file_after_exit": {"decoded": (o.get("file") or {}).get("decoded"), "entries_total": (o.get("file") or {}).get("entries_total"),
@@ -386,6 +406,25 @@ def replay_obj(o, v, fails):
         "tree": str(vcheck.REPO),
         "replay": "bin/check C11 --replay <this file>   (re-runs the scenario on the current tree, several times: timing varies)",
     }
+
+
+def handshake_signature(o, fails):
+    """excluded_C11_F-GRPC-HANDSHAKE: the only thing wrong is that the process outlived the signal (hung or late) while a
+    TCP connection to the gRPC port had not finished its HTTP/2 handshake, and - where the driver obtained a goroutine
+    dump - main() sits in grpc.(*Server).stop. (grpc-go's Stop() waits for handleRawConn, which reads the client preface
+    under the 120 s connection timeout.) Decidable on the scenario's record."""
+    sc, r1 = o["scenario"], o.get("run1") or {}
+    if sc.get("client") != "grpc_stalled" or not fails or not set(fails) <= {"exit0", "prompt", "no_hang"}:
+        return False
+    if not any((st.get("kind") or "").startswith("grpc_") and st.get("open_at_signal") for st in o.get("stalled") or []):
+        return False
+    if not (r1.get("hung") or r1.get("exit_ms", 0) >= (sc.get("limit_ms") or LIMIT_MS)):
+        return False          # it is the FIRST run that must be the late one
+    rp = (o.get("restart") or {}).get("proc") or {}
+    if rp.get("hung") or rp.get("bad_output") or (rp.get("started") and (rp.get("exit_code") != 0 or rp.get("killed_by"))):
+        return False
+    dump = r1.get("hang_dump") or ""
+    return (not dump) or "grpc.(*Server).stop" in dump
 
 
 def pct(xs, q):
@@ -454,7 +493,7 @@ def t4_stage(ctx, only=None, repeat=1, verbose=False):
         ctx.note("T4: %d scenario(s) repeated with a 600 ms pause after start-up (signal may have preceded the handler)" % rerun)
     wall = time.time() - t1
 
-    judged, unjudged, failing = [], [], []
+    judged, unjudged, failing, known = [], [], [], []
     counts = {k: {"pass": 0, "fail": 0, "n/a": 0} for k in CLAUSES}
     for sc in scs:
         o = by_id.get(sc["id"])
@@ -469,6 +508,9 @@ def t4_stage(ctx, only=None, repeat=1, verbose=False):
         for k in CLAUSES:
             counts[k]["fail" if v[k].startswith("fail") else v[k]] += 1
         fails = [k for k in CLAUSES if v[k].startswith("fail")]
+        if fails and handshake_signature(o, fails) and ctx.finding_by_id(F_HANDSHAKE):
+            known.append((o, v, fails))
+            fails = []
         if fails:
             failing.append((o, v, fails))
         if verbose:
@@ -477,6 +519,13 @@ def t4_stage(ctx, only=None, repeat=1, verbose=False):
         for sc, why in unjudged:
             print("%-44s unjudged: %s" % (sc["id"], why[:200]))
 
+    if known:
+        o, v, fails = known[0]
+        r1 = o["run1"]
+        ctx.known_finding(F_HANDSHAKE, "SIG%s with a TCP connection to the gRPC port that has not finished its HTTP/2 handshake (%s): the server %s (grpc Stop() waits for the handshake's 120 s timeout); %d scenario(s), e.g. %s" % (
+            o["scenario"]["signal"], (o.get("stalled") or [{}])[0].get("kind"),
+            "was still running %.0f ms after the signal" % r1.get("exit_ms", 0) if r1.get("hung") else "exited only after %.0f ms" % r1.get("exit_ms", 0),
+            len(known), o["scenario"]["id"]))
     # ---- verdict: one violation per distinct set of failed clauses x client situation (first = corpus / smallest)
     groups = {}
     for o, v, fails in failing:
@@ -520,6 +569,9 @@ def t4_stage(ctx, only=None, repeat=1, verbose=False):
         by_sig.setdefault("SIG" + o["scenario"]["signal"], []).append(o["run1"]["exit_ms"])
     tie.update({
         "scenarios_planned": planned, "corpus": corpus_n, "scenarios_judged": len(judged), "scenarios_failing": len(failing),
+        "scenarios_failing_as_known_finding": {F_HANDSHAKE: [x[0]["scenario"]["id"] for x in known]} if known else {},
+        "stalled_connections": {k: dist([st["closed_ms_after_signal"] for o, _ in judged for st in (o.get("stalled") or []) if st["kind"] == k and st.get("closed_by_server")])
+                                for k in sorted(set(st["kind"] for o, _ in judged for st in (o.get("stalled") or [])))},
         "unjudged": [{"id": sc["id"], "why": why[:200]} for sc, why in unjudged[:20]], "n_unjudged": len(unjudged),
         "clauses": counts,
         "per_client_situation": cells,
@@ -562,7 +614,7 @@ def t4_stage(ctx, only=None, repeat=1, verbose=False):
 
 
 T4_RULE = ("T4: the real server binary built from the tree, one child process per scenario; the scenario list is the full matrix "
-           "signal x state file x REST x no_clear x client situation (quick: each cell once; thorough: three times with different "
+           "signal x state file x REST x no_clear x client situation incl. stalled raw connections (quick: each cell once; thorough: three times with different "
            "signal offsets) plus requests-in-flight runs on a server restored from a 20000-hold state file; hold counts, leases, "
            "waiters, wait timeouts, worker counts and offsets are drawn from one PRNG seeded with VERIF_SEED; evaluations = clause "
            "evaluations (pass or fail, not n/a) over all judged scenarios; distinct_nontrivial = distinct matrix cells with at "
@@ -641,6 +693,7 @@ if __name__ == "__main__":
         tier = "thorough" if "thorough" in sys.argv else "quick"
         # its own work directory: this entry point may run next to `bin/check C11` (which wipes .work/C11 when it starts)
         c = vcheck.Ctx("C11T4ONLY", tier, int(os.environ.get("VERIF_SEED", "1")))
+        c.known_findings = [f for f in vcheck.load_known_findings() if f.get("property") == "C11"]
         t4_stage(c, verbose=True)
         print(json.dumps({k: v for k, v in c.coverage["ties"]["T4-binary"].items() if k not in ("scenario_ids",)}, indent=1))
         for path, text, nfi in c.violations:      # no evidence file is written by this entry point
